@@ -1,1 +1,2 @@
 //! Generators shared by several checks.
+pub mod syntax;
